@@ -320,7 +320,7 @@ func blockOnListChangeWorker(
 	}
 
 	ws := blockFn()
-	defer ctx.dsc.ds.leaveListBlock(ws)
+	defer func() { ctx.dsc.ds.leaveListBlock(ws) }()
 
 	// with notification registered, try operation again immediately
 	output = op()
@@ -365,7 +365,19 @@ func blockOnListChangeWorker(
 		if output.data != nil {
 			return
 		}
-		// a different client obtained the list element before this client could, so try again
+
+		// A different client obtained the list element before this client
+		// could. The wake-up has been consumed and took this client out of the
+		// wait queues, so it must queue again - and look once more before
+		// waiting, because a push may have happened in between - or a later
+		// push would find nobody to wake and this client would sleep for ever.
+		ctx.dsc.ds.leaveListBlock(ws)
+		ws = blockFn()
+
+		output = op()
+		if output.data != nil {
+			return
+		}
 	}
 }
 
